@@ -18,6 +18,8 @@ Sweeps ==
     [cfg |-> [Base EXCEPT !.enc = [kind |-> "v2", cipher |-> "aes128", aead |-> "ocb", chunk |-> 6]], lo |-> 4000, hi |-> 4200],
     [cfg |-> [Base EXCEPT !.enc = [kind |-> "v2", cipher |-> "aes128", aead |-> "ocb", chunk |-> 7], !.source = "reader", !.partial = 4096], lo |-> 8100, hi |-> 8300],
     [cfg |-> [Base EXCEPT !.data_mode = "utf8", !.sign_text = TRUE, !.signers = <<Sig(0, "sha256")>>, !.source = "reader", !.partial = 512], lo |-> 0, hi |-> 1100],
+    \* around the 256th AEAD chunk (first carry in the chunk index of the nonce)
+    [cfg |-> [Base EXCEPT !.enc = [kind |-> "v2", cipher |-> "aes128", aead |-> "gcm", chunk |-> 0]], lo |-> 16300, hi |-> 16460],
     [cfg |-> [Base EXCEPT !.armor = "checksum"], lo |-> 0, hi |-> 200] }
 
 VARIABLE phase
@@ -25,7 +27,7 @@ GInit == phase = 0
 GNext == phase = 0 /\ phase' = 1
 GSpec == GInit /\ [][GNext]_phase
 GenPairs == (phase = 1) =>
-   \A c \in AllCfgs : Expect(c) = "skip" \/
+   \A c \in AllCfgs \cup {o \in OrderCfgs : o.passwords # <<>> \/ o.pubkeys # <<>>} : Expect(c) = "skip" \/
       PrintT(<<"CASE", ToJson([kind |-> "pair", cfg |-> c, expect |-> Expect(c), nesting |-> Nesting(c),
                                sizes |-> {s \in BoundarySizes(c) : s <= MaxSize}])>>)
 GenSweeps == (phase = 1) =>
